@@ -97,6 +97,17 @@ func secretHistory(c c08Case, x *xplore.X) (obs, bad string) {
 		if derr != nil || !bytes.Equal(dec, want) {
 			return obs, fmt.Sprintf("call %d: DecodeSecret does not map the secret back to the stream bytes", i)
 		}
+		// the decoded key belongs to the caller: after the caller wipes it, the secret must still decode to
+		// the stream bytes, and a code generated from the secret must still be the code of those bytes
+		for k := range dec {
+			dec[k] = 0
+		}
+		if d2, e2 := otp.DecodeSecret(s); e2 != nil || !bytes.Equal(d2, want) {
+			return obs, fmt.Sprintf("call %d: after the caller wiped the decoded key, DecodeSecret maps the secret to %x, not to the stream bytes", i, d2)
+		}
+		if code, e3 := otp.GenerateHOTP(s, 1, nil); e3 != nil || code != ref.HOTP(want, 1, 6, 0) {
+			return obs, fmt.Sprintf("call %d: after the caller wiped the decoded key, GenerateHOTP uses a different key for the secret", i)
+		}
 		// every secret handed out earlier must still be the secret it was (no shared memory with later calls)
 		keep = append(keep, kept{s, strings.Clone(s), want, i})
 		for _, k := range keep {
